@@ -16,7 +16,7 @@ abbrev clr (s : State) : State := { s with events := [] }
 
 /-- `deliver` either commits the handler's result (when `ValidateBasic` and the handler both
 succeed) or returns the untouched state (with the event buffer cleared) and a rejection. -/
-theorem deliver_cases (s : State) (m : Msg) :
+theorem deliver_cases_D (s : State) (m : Msg) :
     (∃ s', m.validateBasic = .ok () ∧ m.handle (clr s) = .ok s' ∧ deliver s m = (s', .accept)) ∨
     (∃ msg, deliver s m = (clr s, .reject msg) ∧
       ¬ (m.validateBasic = .ok () ∧ ∃ s', m.handle (clr s) = .ok s')) := by
@@ -42,13 +42,13 @@ theorem deliver_cases (s : State) (m : Msg) :
 
 theorem deliver_accept {s : State} {m : Msg} (h : (deliver s m).2 = .accept) :
     m.validateBasic = .ok () ∧ m.handle (clr s) = .ok (deliver s m).1 := by
-  rcases deliver_cases s m with ⟨s', hv, hh, hd⟩ | ⟨msg, hd, _⟩
+  rcases deliver_cases_D s m with ⟨s', hv, hh, hd⟩ | ⟨msg, hd, _⟩
   · rw [hd]; exact ⟨hv, hh⟩
   · rw [hd] at h; cases h
 
 theorem deliver_not_accept {s : State} {m : Msg} (h : (deliver s m).2 ≠ .accept) :
     (deliver s m).1 = clr s := by
-  rcases deliver_cases s m with ⟨s', hv, hh, hd⟩ | ⟨msg, hd, _⟩
+  rcases deliver_cases_D s m with ⟨s', hv, hh, hd⟩ | ⟨msg, hd, _⟩
   · rw [hd] at h; exact absurd rfl h
   · rw [hd]
 
@@ -56,14 +56,14 @@ theorem deliver_not_accept {s : State} {m : Msg} (h : (deliver s m).2 ≠ .accep
 theorem deliver_of_handle_fails {s : State} {m : Msg}
     (h : m.validateBasic = .ok () → ∀ s', m.handle (clr s) ≠ .ok s') :
     (deliver s m).2 ≠ .accept ∧ (deliver s m).1 = clr s := by
-  rcases deliver_cases s m with ⟨s', hv, hh, hd⟩ | ⟨msg, hd, _⟩
+  rcases deliver_cases_D s m with ⟨s', hv, hh, hd⟩ | ⟨msg, hd, _⟩
   · exact absurd hh (h hv s')
   · rw [hd]; exact ⟨by simp, rfl⟩
 
 /-- If `ValidateBasic` and the handler succeed, the message is accepted with the handler's state. -/
 theorem deliver_of_ok {s s' : State} {m : Msg} (hv : m.validateBasic = .ok ()) (hh : m.handle (clr s) = .ok s') :
     deliver s m = (s', .accept) := by
-  rcases deliver_cases s m with ⟨s'', _, hh', hd⟩ | ⟨msg, _, hno⟩
+  rcases deliver_cases_D s m with ⟨s'', _, hh', hd⟩ | ⟨msg, _, hno⟩
   · rw [hh] at hh'; cases hh'; exact hd
   · exact absurd ⟨hv, s', hh⟩ hno
 
@@ -447,7 +447,7 @@ theorem provUpdated_addr (p : Provider) (n i w d : Bytes) (st : Status) (t : Tim
   simp only []
   split <;> split <;> rfl
 
-theorem nodeUpdated_addr (n : Node) (gb hr : Option Coins) (url : Bytes) : (nodeUpdated n gb hr url).addr = n.addr := by
+theorem nodeUpdated_addr_D (n : Node) (gb hr : Option Coins) (url : Bytes) : (nodeUpdated n gb hr url).addr = n.addr := by
   unfold nodeUpdated
   cases gb <;> cases hr <;> simp only [] <;> split <;> rfl
 
@@ -484,7 +484,7 @@ theorem cw_nodeUpdate {s s' : State} {frm : Addr} {gb hr : Option Coins} {url : 
   unfold nodeUpdate at h
   simp only [bind_eq_ok, pure_eq_ok, require_eq_ok, orReject_eq_ok] at h
   obtain ⟨_, _, _, _, n, hn, s1, h1, rfl⟩ := h
-  have ha : F.node (nodeUpdated n gb hr url).addr := by rw [nodeUpdated_addr, hk.getNode hn]; exact hF
+  have ha : F.node (nodeUpdated n gb hr url).addr := by rw [nodeUpdated_addr_D, hk.getNode hn]; exact hF
   exact (cw_setNode h1 ha).trans (cw_of_recs rfl)
 
 theorem cw_nodeStatus {s s' : State} {frm : Addr} {st : Status} (h : nodeStatus s frm st = .ok s')
@@ -1006,7 +1006,7 @@ theorem keysOK_handle {s s' : State} {m : Msg} (hk : KeysOK s) (h : m.handle s =
 
 /-- Every delivered message — accepted or rejected — keeps records under their own keys. -/
 theorem KeysOK_deliver (s : State) (m : Msg) (hk : KeysOK s) : KeysOK (deliver s m).1 := by
-  rcases deliver_cases s m with ⟨s', _, hh, hd⟩ | ⟨msg, hd, _⟩
+  rcases deliver_cases_D s m with ⟨s', _, hh, hd⟩ | ⟨msg, hd, _⟩
   · rw [hd]; exact keysOK_handle hk.clr hh
   · rw [hd]; exact hk.clr
 
